@@ -194,6 +194,45 @@ def r9(body):
     return body, count
 
 
+@rule("R10", "let mut C = |p: T| { B }; ... C(&mut p); -> closure definition removed, each call replaced by { B }   [inlining; legal when parameter and argument have the same name and the closure is called at most once per path]")
+def r10(body):
+    m = re.search(r"\blet\s+mut\s+(\w+)\s*=\s*\|\s*(\w+)\s*:\s*&mut\s+[^|]+\|\s*\{", body)
+    if not m:
+        return body, 0
+    name, param = m.group(1), m.group(2)
+    i = m.end() - 1
+    depth, j = 0, i
+    while j < len(body):
+        if body[j] == '{':
+            depth += 1
+        elif body[j] == '}':
+            depth -= 1
+            if depth == 0:
+                break
+        j += 1
+    block = body[i:j + 1]
+    k = j + 1
+    mm = re.match(r"\s*;", body[k:])
+    if not mm:
+        return body, 0
+    k += mm.end()
+    # side conditions: every use of the closure is `name(&mut param);`
+    rest = body[:m.start()] + _blank_keep_nl(body[m.start():k]) + body[k:]
+    uses = list(re.finditer(r"\b%s\b" % re.escape(name), rest))
+    calls = list(re.finditer(r"\b%s\(\s*&mut\s+%s\s*\)\s*;" % (re.escape(name), re.escape(param)), rest))
+    if len(uses) != len(calls) or not calls:
+        return body, 0
+    flat = " ".join(block.split())
+    out = rest
+    for c in reversed(calls):
+        out = out[:c.start()] + _pad(c.group(0), flat) + out[c.end():]
+    return out, len(calls)
+
+
+def _blank_keep_nl(s):
+    return "\n" * s.count("\n")
+
+
 # rules that are purely syntactic proof devices are applied only when a unit asks for them
 OPT_IN = {"R9", "R15", "R17"}
 
